@@ -20,10 +20,10 @@ Theorem C02_tables :
      (np.maximum.reduce is a ufunc reduce; np.max would not be) *)
   redscan_ops = redscan_ops_model /\ compiled_reduce_tbl = compiled_reduce_model /\ compiled_scan_tbl = compiled_scan_model /\
   compiled_reduce_tbl_template = compiled_template_model /\ compiled_scan_tbl_template = compiled_template_model /\
-  (* the loop tests of While / Scan-While: Python's truth of the evaluated predicate *)
-  while_test = while_test_model /\ scan_while_test = while_test_model.
+  (* the loop tests of While / Scan-While: kg_is_true (Klong truth) of the evaluated predicate *)
+  while_truth_is_klong = true.
 Proof. exact (conj eq_refl (conj eq_refl (conj eq_refl (conj eq_refl (conj eq_refl (conj eq_refl
-             (conj eq_refl (conj eq_refl (conj eq_refl (conj eq_refl (conj eq_refl (conj eq_refl eq_refl)))))))))))). Qed.
+             (conj eq_refl (conj eq_refl (conj eq_refl (conj eq_refl (conj eq_refl eq_refl))))))))))). Qed.
 Print Assumptions C02_tables.
 
 (* f'a = f(a1),...,f(aN); atom f(a); [] and "" unchanged; dictionary: f of every [key value] tuple.
@@ -111,22 +111,21 @@ Print Assumptions C02_over_shortcut_arith.
 (* %/a.  The verb is klong_div: a%0 is :undefined (Err 97 here) when both operands are atoms, element-wise true
    division in binary64 otherwise.  divide.reduce is taken only when no divisor a2..aN of a flat array is zero
    (the guard `_has_zero_divisor`, regenerated text checked in C02_tables); it converts an integer array to
-   binary64 first, which changes no quotient.  div_dom a excludes only object arrays holding a zero number. *)
+   binary64 first, which changes no quotient.  EVERY operand, object arrays included: the guard is False on an
+   object array only when every zero divisor comes after a list element, where the running quotient is a list. *)
 Theorem C02_over_shortcut_divide : forall S (a : val) (s : S),
-  div_dom a = true ->
   m_over over_shortcuts (Some "%"%string) (pure2 klong_div) a s = s_over (pure2 klong_div) a s.
-Proof. exact (fun S => eq_ind _ (fun t => forall a s, div_dom a = true ->
+Proof. exact (fun S => eq_ind _ (fun t => forall a s,
                 m_over t (Some "%"%string) (pure2 klong_div) a s = s_over (pure2 klong_div) a s)
               (over_shortcut_divide S) _ (eq_refl : over_table_model = over_shortcuts)). Qed.
 Print Assumptions C02_over_shortcut_divide.
 
-(* minmax_dom a: a is not a vector of reals (binary64 min/max is not associative-commutative with -0.0 / NaN;
-   real vectors are covered by the correspondence only) *)
+(* &/ |/ : np.min / np.max are minimum.reduce / maximum.reduce of the same scalar function the verb uses, so on a
+   vector (integers or reals) the shortcut is the left fold; other operands take the generic fold *)
 Theorem C02_over_shortcut_minmax : forall S op u (a : val) (s : S),
-  In (op, u) [("&"%string, n_min); ("|"%string, n_max)] -> minmax_dom a = true ->
+  In (op, u) [("&"%string, n_min); ("|"%string, n_max)] ->
   m_over over_shortcuts (Some op) (pure2 (ew2 u)) a s = s_over (pure2 (ew2 u)) a s.
 Proof. exact (fun S => eq_ind _ (fun t => forall op u a s, In (op, u) [("&"%string, n_min); ("|"%string, n_max)] ->
-                minmax_dom a = true ->
                 m_over t (Some op) (pure2 (ew2 u)) a s = s_over (pure2 (ew2 u)) a s)
               (over_shortcut_minmax S) _ (eq_refl : over_table_model = over_shortcuts)). Qed.
 Print Assumptions C02_over_shortcut_minmax.
@@ -153,12 +152,12 @@ Print Assumptions C02_scan_shortcut_arith.
    binary64 when a is a numeric array and the shortcut is taken (`%\[5]` is [5.0]): a numeric-representation
    difference, not a different number. *)
 Theorem C02_scan_shortcut_divide : forall S (a : val) (s : S),
-  is_atom a = false -> div_dom a = true ->
+  is_atom a = false ->
   m_scan scan_shortcuts (Some "%"%string) (pure2 klong_div) a s
   = ((if zero_divisor (items a) then fun r => r
       else on_first (fun _ => cast_first {| uf_cast := cast_real; uf_op := n_div |} (items a)))
        (fst (s_scan (pure2 klong_div) a s)), s).
-Proof. exact (fun S => eq_ind _ (fun t => forall a s, is_atom a = false -> div_dom a = true ->
+Proof. exact (fun S => eq_ind _ (fun t => forall a s, is_atom a = false ->
                 m_scan t (Some "%"%string) (pure2 klong_div) a s
                 = ((if zero_divisor (items a) then fun r => r
                     else on_first (fun _ => cast_first {| uf_cast := cast_real; uf_op := n_div |} (items a)))
@@ -235,12 +234,12 @@ Theorem C02_converge_terminates : forall (g : val -> res val) (x : nat -> val) n
 Proof. exact converge_terminates. Qed.
 Print Assumptions C02_converge_terminates.
 
-Theorem C02_while_terminates : forall (p g : val -> res val) (x : nat -> val) n,
+Theorem C02_while_terminates : forall kt (p g : val -> res val) (x : nat -> val) n,
   (forall k, (k < n)%nat -> g (x k) = Ok (x (Datatypes.S k))) ->
-  (forall k, (k < n)%nat -> exists t, p (x k) = Ok t /\ truthy t = Ok true) ->
-  (exists t, p (x n) = Ok t /\ truthy t = Ok false) ->
+  (forall k, (k < n)%nat -> exists t, p (x k) = Ok t /\ truthy kt t = Ok true) ->
+  (exists t, p (x n) = Ok t /\ truthy kt t = Ok false) ->
   forall fuel log, (n < fuel)%nat ->
-  m_while fuel (loggedp p) (logged1 g) (x 0%nat) log = (Ok (x n), log ++ while_calls x 0 n ++ [CallP (x n)]).
+  m_while kt fuel (loggedp p) (logged1 g) (x 0%nat) log = (Ok (x n), log ++ while_calls x 0 n ++ [CallP (x n)]).
 Proof. exact while_terminates. Qed.
 Print Assumptions C02_while_terminates.
 
@@ -256,31 +255,32 @@ Theorem C02_scan_converging_terminates : forall (g : val -> res val) (x : nat ->
 Proof. exact scan_converging_terminates. Qed.
 Print Assumptions C02_scan_converging_terminates.
 
-Theorem C02_scan_while_terminates : forall (p g : val -> res val) (x : nat -> val) n,
+Theorem C02_scan_while_terminates : forall kt (p g : val -> res val) (x : nat -> val) n,
   (forall k, (k < n)%nat -> g (x k) = Ok (x (Datatypes.S k))) ->
-  (forall k, (k < n)%nat -> exists t, p (x k) = Ok t /\ truthy t = Ok true) ->
-  (exists t, p (x n) = Ok t /\ truthy t = Ok false) ->
+  (forall k, (k < n)%nat -> exists t, p (x k) = Ok t /\ truthy kt t = Ok true) ->
+  (exists t, p (x n) = Ok t /\ truthy kt t = Ok false) ->
   forall fuel log, (n < fuel)%nat ->
-  m_scan_while fuel (loggedp p) (logged1 g) (x 0%nat) log
+  m_scan_while kt fuel (loggedp p) (logged1 g) (x 0%nat) log
   = (Ok (VList (orbit_list x n)), log ++ while_calls x 0 n ++ [CallP (x n)]).
 Proof. exact scan_while_terminates. Qed.
 Print Assumptions C02_scan_while_terminates.
 
-(* The truth test of While / Scan-While is Python's truth of the predicate's answer (`truthy`); it is Klong's truth
-   (0, 0.0, [] and "" false, everything else true) for every answer that is not a list or an empty dictionary. *)
-Theorem C02_while_truth_is_klong_truth : forall t, while_truth_known t = false -> truthy t = Ok (ktruth t).
-Proof. exact truthy_is_ktruth. Qed.
+(* The truth test of While / Scan-While is Klong's truth (0, 0.0, [] and "" false, everything else true) for EVERY
+   answer of the test.  The flag is regenerated from the source on this run: both loops call kg_is_true on the
+   evaluated predicate and kg_is_true is the Klong-truth expression (fix cf601c6). *)
+Theorem C02_while_truth_is_klong_truth : forall t, truthy while_truth_is_klong t = Ok (ktruth t).
+Proof. exact (truthy_klong while_truth_is_klong eq_refl). Qed.
 Print Assumptions C02_while_truth_is_klong_truth.
 
-Definition C02_while_truth_full_statement : Prop := forall t, truthy t = Ok (ktruth t).
-(* KNOWN FINDING C02-while-list-truth: a test that answers a list (true in Klong unless empty) raises or is
-   taken as its only element's truth, and an empty dictionary counts as false *)
-Theorem C02_while_truth_refuted :
-  (exists t, ktruth t = true /\ truthy t = Err E_TYPE) /\ (exists t, ktruth t = false /\ truthy t = Err E_TYPE) /\
-  (exists t, ktruth t = true /\ truthy t = Ok false).
+(* Before the repair (flag false: Python's own truth of the answer) the statement was false: a test that answers
+   a list raised or was judged by its only element, and an empty dictionary counted as false. *)
+Theorem C02_while_truth_refuted_without_fix :
+  (exists t, ktruth t = true /\ truthy false t = Err E_TYPE) /\ (exists t, ktruth t = false /\ truthy false t = Err E_TYPE) /\
+  (exists t, ktruth t = true /\ truthy false t = Ok false) /\
+  (forall t, while_truth_known t = false -> truthy false t = Ok (ktruth t)).
 Proof. exact (conj (ex_intro _ (VList [VInt 1; VInt 2]) (conj eq_refl eq_refl))
              (conj (ex_intro _ (VList []) (conj eq_refl eq_refl))
-                   (ex_intro _ (VList [VInt 0]) (conj eq_refl eq_refl)))). Qed.
+             (conj (ex_intro _ (VList [VInt 0]) (conj eq_refl eq_refl)) py_truth_is_ktruth))). Qed.
 
 (* Iterate with a negative count never ends (outside the documented domain): every fuel is exhausted *)
 Theorem C02_iterate_negative_refuted_termination :
@@ -298,8 +298,7 @@ Example C02_shortcut_example :
   m_scan scan_shortcuts (Some "%"%string) (pure2 klong_div) (vints [6; 3; 2]) tt
     = (Ok (VList [VReal (of_Z 6); VReal (of_Z 2); VReal (of_Z 1)]), tt) /\
   m_over over_shortcuts (Some "%"%string) (pure2 klong_div) (vints [1; 0]) tt = (Err E_UNDEF, tt) /\
-  div_dom (vints [1; 0]) = true /\
-  minmax_dom (vints [3; 1; 2]) = true /\
+  zero_divisor [VInt 4; vints [1; 2]; VInt 0] = false /\ zero_divisor [VInt 4; VInt 0; vints [1; 2]] = true /\
   compiled_over redscan_ops compiled_reduce_tbl (Some "|"%string) (VList [vints [1; 9]; vints [7; 2]]) = Some (Ok (vints [7; 9])) /\
   compiled_scan redscan_ops compiled_scan_tbl (Some "+"%string) (VInt 5) = None /\
   m_converge 10 (logged1 (fun v => match v with VInt z => Ok (VInt (z / 2)) | _ => Err 1 end)) (VInt 5) []
